@@ -213,7 +213,7 @@ def make_transform(rng, kind, inp, d, N, K, T_):
 def dist_table(s, ppp):
     """own minimum image for an orthogonal cell (per-axis rounding), full N x N distances"""
     pos = s.positions
-    L = np.diag(s.hmatrix) if np.allclose(s.hmatrix, np.diag(np.diag(s.hmatrix))) else None
+    L = np.diag(s.hmatrix) if np.array_equal(s.hmatrix, np.diag(np.diag(s.hmatrix))) else None
     dr = pos[None, :, :] - pos[:, None, :]
     if L is not None:
         dr -= np.rint(dr / L) * L * np.asarray(ppp)[None, None, :]
